@@ -17,8 +17,8 @@
 (*                                                                         *)
 (* Repairs: the set Fix names candidate repairs that are modelled next to  *)
 (* the code as it is ("D3" no fold inside a more-indented line of a folded *)
-(* scalar, "D4" NEL is a special character, "D9" no second fold at the     *)
-(* same place in a double-quoted scalar).  Fix = {} is the pinned tree.    *)
+(* scalar, "D4" NEL is a special character, "D9" no fold between an escaped   *)
+(* character and a following space).  Fix = {} is the pinned tree.        *)
 (* Partial operations that would be a Python exception other than an       *)
 (* emitter error are the writer outcome crash = TRUE.                      *)
 (***************************************************************************)
@@ -186,11 +186,14 @@ WDoubleLoop(t, P, split, w, start, end, justFolded) ==
                       IN  IF ch # None THEN [w |-> WData(wa, Escape(ch)), start |-> end + 1]
                           ELSE [w |-> wa, start |-> IF start < end THEN end ELSE start]
                  ELSE [w |-> w, start |-> start]
-           foldc == 0 < end /\ end < Len(t) - 1 /\ (ch = SP \/ r1.start >= end)
+           \* repair "D9": right after an escaped character do not fold if the next character is a space (fold at that
+           \* space in the next iteration instead, where the protecting backslash and the space stay together)
+           foldc == 0 < end /\ end < Len(t) - 1
+                    /\ (ch = SP \/ (r1.start >= end /\ ("D9" \in Fix => At(t, r1.start) # SP)))
                     /\ r1.w.col + (end - r1.start) > P.width /\ split
-           \* the second fold at the same place: nothing but the protecting backslash was written since the last fold
+           \* the defect site: a second fold at the same place - nothing but the protecting backslash was written since the last one
            refold == foldc /\ justFolded /\ r1.start >= end
-           fold == foldc /\ ~(refold /\ "D9" \in Fix)
+           fold == foldc
            r2 == IF fold
                  THEN LET st == IF r1.start < end THEN end ELSE r1.start
                           wb == NoWs(WIndent(WData(r1.w, Append(Slice(t, r1.start, end), BSL)), P))
